@@ -153,7 +153,7 @@ CHECKS = {
                 "newest is kept, the removed ones are the oldest whole groups; anything unlistable (group or root level) blocks every "
                 "deletion. Tied to the code by real run histories under a fake clock (same day, +1 h, next day, gaps), limits 1..4 x "
                 "1..4 changed between runs, storages seeded with debris: group and backup names after every run are compared with "
-                "the extracted model (publish + gc) and the property is evaluated on the real listing.",
+                "the extracted model (publish + gc) and the property is evaluated on the real listing; foreign root entries - also directories whose names merely resemble a group name (<date>.old, a date in non-ASCII digits) - must block every deletion and be neither deleted nor written into (theorems C07_group_name_exact, C07_extended_group_name_is_foreign on the name-classification model).",
         "note": "Backups are counted as the listing recognises them (final-named directories with both files); chrono name formatting "
                 "under TZ=UTC is trusted. Open finding F3 concerns this code path (see C13).",
         "technique": "Coq proof (invariant over run/fail/collect events) + differential histories against the real binary",
@@ -181,8 +181,8 @@ CHECKS = {
                 "check_backups is run under a fake clock at threshold -1 s / 0 / +1 s for m/h/d; histories of real completing, failing "
                 "(injected storage faults) and killed runs are verified after every run; and the real `vsb upload` is run against the "
                 "provider emulator with the threshold in the configuration and a faked clock: the alarm lines for the local storage and "
-                "for the cloud must agree with the alarm model.",
-        "note": "Names are classified (day numbers, hash ids) in the model; the regex crate and chrono name parsing are trusted. "
+                "for the cloud must agree with the alarm model. The classification of names behind the classified listing (what is a group, a backup, a temporary, a hidden or an unexpected entry) is a Gallina model with its own theorems (exact shapes in ASCII digits; no extension of a name is a name; a name with a non-ASCII byte is foreign), compared with the real listing on names around the two shapes - this tie found F13 (non-ASCII digits accepted), repaired in /repo.",
+        "note": "Names are classified (day numbers, hash ids) in the verifier model, by NameClass.v before that; the regex crate's matching of the two patterns and chrono name parsing are trusted. "
                 "Open known finding F3 (empty group left by a failed run, reused on a later date) is reported as KNOWN-FINDING when "
                 "a history of that class is exercised (likewise F10: a tree without regular files).",
         "technique": "Coq proof (executable verifier <-> declarative predicate; run invariants) + differential correspondence on corrupted storages",
@@ -344,7 +344,7 @@ def main():
             "enable": "RUSTFLAGS=\"--cfg vsb_verif\" (set by vlib/build.py for the harness and for the vsb binary the checks build)",
             "baseline_off_cmd": "cd /repo && cargo test --workspace --no-fail-fast --offline",
             "source_commits": ["4a2459f", "00656bc"],
-            "fix_commits": ["8b196ab", "64fc1ae", "9b93522", "a699f7c", "3bc0c53", "02f1099", "3543234", "d28d72c", "f378725", "113df45"],
+            "fix_commits": ["8b196ab", "64fc1ae", "9b93522", "a699f7c", "3bc0c53", "02f1099", "3543234", "d28d72c", "f378725", "113df45", "0e664f5"],
             "add_only": True,
         },
         "engines": [{
